@@ -76,3 +76,29 @@ UNITS.append(dict(
                dict(name='dbus_connection_set_max_message_size & co.', file='dbus/dbus-connection.c', status='stub', note='ghost: value recorded; that the loader then enforces it is C01.1 / C11'),
                dict(name='bus_connections_setup_connection', file=CONN, status='assumed', note='arbitrary result')],
     assumptions=[]))
+UNITS.append(dict(
+    name='C13.message_size_chain', props=['C13'], kind='P', route='stub',
+    tus=[dict(file='dbus/dbus-connection.c', include_as='VERIF_TU'), dict(file='dbus/dbus-transport.c'), dict(file='dbus/dbus-message.c')],
+    harness='harness/c13_msgsize.c', timeout=300, expect_s=10, must_have=['size.post1'],
+    functions=[dict(name='dbus_connection_set_max_message_size', file='dbus/dbus-connection.c', status='enforced', contract='loader->max_message_size == min(size, 128 MiB)'),
+               dict(name='_dbus_transport_set_max_message_size', file='dbus/dbus-transport.c', status='inlined', note='real code'),
+               dict(name='_dbus_message_loader_set_max_message_size', file='dbus/dbus-message.c', status='inlined', note='real code'),
+               dict(name='_dbus_connection_unlock', file='dbus/dbus-connection.c', status='inlined', note='real code; expired-message list empty (precondition)'),
+               dict(name='_dbus_rmutex_lock/_unlock', file='dbus/dbus-threads.c', status='assumed', note='no-op (sequential contracts)')],
+    assumptions=['no expired messages are pending on the connection (loop of _dbus_connection_unlock runs zero times)']))
+conn_unit('disconnected', 4, ['bus_connection_disconnected', 'adjust_connections_for_uid'], ['disc.post1', 'disc.post3', 'disc.post4', 'disc.post5', 'disc.post6'],
+          'every owned name released; completed: n_completed -1 and per-uid -1; incomplete: n_incomplete -1 and the accept gate re-evaluated; no counter negative',
+          extra=[HASH_NOTE, dict(name='bus_service_remove_owner', file='bus/services.c', status='replaced', note='removes the entry and the owned-name link (C04.remove_owner, C13.counters); at most one NoMemory failure'),
+                 dict(name='bus_transaction_new', file=CONN, status='assumed', note='memory eventually available (the code loops on _dbus_wait_for_memory otherwise)'),
+                 dict(name='bus_connection_remove_transactions / bus_connection_drop_pending_replies', file=CONN, status='stub', note='counted (pending replies are C09)')],
+          kind='B', route='plain', unwind=6, unwindset=['verif_streq.0:66'], bounds={'owned names': '<= 3', 'OOM retries': '<= 1'},
+          replace_calls={f: 'verif_stub_' + f for f in ['bus_connection_remove_transactions', 'bus_connection_drop_pending_replies', 'bus_transaction_new',
+                                                         'bus_transaction_cancel_and_free', 'bus_transaction_execute_and_free']},
+          assumptions=['I (per operation): the connection is counted in the list its link is in; n_services_owned == length(services_owned)'])
+conn_unit('counters_list', 5, ['bus_connection_add_match_rule_link', 'bus_connection_remove_match_rule', 'bus_connection_add_owned_service_link', 'bus_connection_remove_owned_service'],
+          ['inv.len', 'inv.add', 'inv.remove'], 'I: counter == length of its list, kept by each operation (real dbus-list.c)',
+          extra=[dict(name='_dbus_list_append_link/_dbus_list_remove_last/_dbus_list_find_last/_dbus_list_remove_link', file='dbus/dbus-list.c', status='bounded', note='real pointer code'),
+                 dict(name='free_link', file='dbus/dbus-list.c', status='stub', note='counted (dbus-mempool.c not verified)')],
+          kind='B', route='plain', unwind=7, bounds={'list length before the call': '<= 3'},
+          tus=[dict(file=CONN, include_as='VERIF_TU'), dict(file='dbus/dbus-list.c')], replace_calls={'free_link': 'verif_free_link'},
+          assumptions=['requires: the removed element is in the list'])
